@@ -119,8 +119,9 @@ class C10(framework.PropertyCheck):
                      'nested': f"(f '(1 ({t})) `(x ,{t}))"}[case['pos']]]
         if k == 'str':
             # ... and two literals on one line, the second followed by a comment that contains a quote character
+            # (the third text keeps a TAB character of the string as it is instead of writing the escape, behind some indentation)
             return [gen_reader.esc(case['chars']), '(a ' + gen_reader.esc(case['chars']) + ')',
-                    '(f ' + gen_reader.esc(case['chars']) + ' ' + gen_reader.esc(case.get('chars2', 'c')) + ') ; "trailing']
+                    '   (f ' + gen_reader.esc_rawtab(case['chars']) + ' ' + gen_reader.esc(case.get('chars2', 'c')) + ') ; "trailing']
         if k == 'layout':
             return [gen_reader.join(case['toks']), gen_reader.join(case['toks'], random.Random(case['seed'])),
                     ' \n' + gen_reader.join(case['toks'], random.Random(case['seed'] + 1)) + (' ; trailing comment' if case['seed'] % 3 else ' ;')]
